@@ -2534,7 +2534,8 @@ fn run_view(cx: &mut Cx, subject: &str, src: &Src, ranges: &[(usize, usize)], cf
                         peeked = 0;
                     }
                     "seek" => {
-                        dc = e["t"].as_u64().unwrap_or(0) as usize;
+                        // follow the position the implementation reports
+                        dc = (e["r"].as_u64().unwrap_or(0) as usize).min(vlen);
                         peeked = 0;
                     }
                     _ => {}
@@ -3202,7 +3203,7 @@ fn drive(a: &Args) {
     let mut cx = Cx::new(a);
     let rng0 = Rng::new(a.seed);
     let thorough = a.thorough();
-    let reps = if thorough { 4 } else { 1 };
+    let reps = if thorough { 10 } else { 1 };
     // ---- part 1: records under interleaved schedules
     let rec = |cx: &mut Cx, subject: &str, gen: &mut dyn FnMut(&mut Rng) -> Vec<Item>| {
         if !cx.a.wants(subject) {
